@@ -197,6 +197,28 @@ func (e *ExecutorV3) RunTx(context state.Interface, rawTx []byte, rewardPool *bi
 		}
 	}
 
+	// the part of the price that pays for the ticker is burned after a successful run; it has to
+	// be quoted before the run, because a failure here must not follow the state changes of Run
+	var symbolPrice *big.Int
+	if tx.Type == TypeCreateCoin || tx.Type == TypeCreateToken {
+		dataCreateSymbol := tx.decodedData.(symbolCreator)
+		symbolPrice = tx.MulGasPrice(dataCreateSymbol.PayForSymbol(commissions))
+		if !commissions.Coin.IsBaseCoin() {
+			var resp *Response
+			resp, symbolPrice, _ = CheckSwap(checkState.Swap().GetSwapper(commissions.Coin, types.GetBaseCoinID()), checkState.Coins().GetCoin(commissions.Coin), checkState.Coins().GetCoin(0), symbolPrice, big.NewInt(0), false)
+			if resp != nil {
+				return *resp
+			}
+		}
+		if symbolPrice == nil || symbolPrice.Sign() != 1 {
+			return Response{
+				Code: code.CommissionCoinNotSufficient,
+				Log:  fmt.Sprint("Not possible to pay commission"),
+				Info: EncodeError(code.NewCommissionCoinNotSufficient("", "")),
+			}
+		}
+	}
+
 	response := tx.decodedData.Run(tx, context, rewardPool, currentBlock, price)
 	if response.Code == code.OK && isCheck {
 		// check if mempool already has transactions from this address
@@ -326,23 +348,7 @@ func (e *ExecutorV3) RunTx(context state.Interface, rawTx []byte, rewardPool *bi
 				}
 			}
 		} else if deliverState, ok := context.(*state.State); ok {
-			if tx.Type == TypeCreateCoin || tx.Type == TypeCreateToken {
-				dataCreateSymbol := tx.decodedData.(symbolCreator)
-				symbolPrice := tx.MulGasPrice(dataCreateSymbol.PayForSymbol(commissions))
-				if !commissions.Coin.IsBaseCoin() {
-					var resp *Response
-					resp, symbolPrice, _ = CheckSwap(checkState.Swap().GetSwapper(commissions.Coin, types.GetBaseCoinID()), checkState.Coins().GetCoin(commissions.Coin), checkState.Coins().GetCoin(0), symbolPrice, big.NewInt(0), false)
-					if resp != nil {
-						return *resp
-					}
-				}
-				if symbolPrice == nil || symbolPrice.Sign() != 1 {
-					return Response{
-						Code: code.CommissionCoinNotSufficient,
-						Log:  fmt.Sprint("Not possible to pay commission"),
-						Info: EncodeError(code.NewCommissionCoinNotSufficient("", "")),
-					}
-				}
+			if symbolPrice != nil {
 				rewardPool.Sub(rewardPool, symbolPrice)
 				deliverState.Accounts.AddBalance([20]byte{}, 0, symbolPrice)
 				response.Tags = append(response.Tags,
